@@ -93,6 +93,14 @@ def gen_cases(ctx):
         if op == "div" and sy in ("str", None, "pos0", "neg0"):
             sy = rng.choice(["pos", "neg"])
         cases.append(("public-int", dep, op, pbx.int_box200(rng, sx), pbx.int_box200(rng, sy)))
+    # second operand handed over as an Interval OBJECT (every sign class, incl. straddling x straddling)
+    for _ in range(ctx.scale(36, 600)):
+        op = rng.choice(["add", "sub", "mul", "mul", "mul", "div"])
+        dep = rng.choice(["p", "o", "i"])
+        lo = rng.choice([-3, -2, -1, 0, 1, 2]); hi = lo + rng.choice([0, 1, 2, 3])
+        if op == "div" and lo <= 0 <= hi:
+            lo, hi = 1, 1 + (hi - lo)
+        cases.append(("public-ivlobj", dep, op, pbx.int_box200(rng, rng.choice(signs)), ([lo] * 200, [hi] * 200)))
     # integer-dtype bounds (Staircase(left=[ints], …), pba.min_max(2, 5)): integer reciprocals / truncation
     for _ in range(ctx.scale(18, 400)):
         op = rng.choice(["div", "div", "mul", "add", "sub"])
@@ -171,8 +179,9 @@ def run(ctx: core.Check):
         ctx.bump(f"dep:{rule[0]}")
         ctx.bump("signs:" + pbx.sign_class(*x)[:3] + "x" + pbx.sign_class(*y)[:3])
         public = stream.startswith("public")
-        exact = (not public) or (stream in ("public-int", "public-intdtype") and op != "div")
-        impl = impl_public(op, rule, x, y, bare=False, int_dtype=(stream == "public-intdtype")) if public else impl_raw(rule, op, x, y)
+        exact = (not public) or (stream in ("public-int", "public-intdtype", "public-ivlobj") and op != "div")
+        impl = impl_public(op, rule, x, y, bare=False, int_dtype=(stream == "public-intdtype"),
+                           y_interval=(stream == "public-ivlobj")) if public else impl_raw(rule, op, x, y)
         model = pbx.parse_reply(rep)
         if pbx.same(impl, model, exact):
             ctx.tie_ok()
